@@ -163,7 +163,8 @@ func DecodeZigZag(x uint64) int64 {
 
 func (BinaryDecoder) DecodeBool(b []byte) (bool, int) {
 	v, n := ConsumeVarint(b)
-	return int8(v) == 1, n
+	// protobuf: any non-zero varint is true
+	return v != 0, n
 }
 
 func (BinaryDecoder) DecodeByte(b []byte) byte {
